@@ -790,7 +790,8 @@ r3:
 			}
 		}
 		for f := range w.mapWriters("cluster", a.msT, "members") {
-			if !isMethodOf(rootFn(f), a.msT) && rootFn(f).Name() != "NewMemberSet" {
+			// (the rule is about the agent's set: a fresh MemberSet helper spliced into the provider writes the provider's set)
+			if !isMethodOf(rootFn(f), a.msT) && rootFn(f).Name() != "NewMemberSet" && isMethodOf(rootFn(f), a.agentT) {
 				mw[rootFn(f)] = true
 			}
 		}
